@@ -90,7 +90,7 @@ pub fn run(ctx: &Ctx) -> Outcome {
     let mut numbers: Vec<u64> = (0..1000).collect();
     numbers.extend(gen::group_sweep(ctx.seed).into_iter().filter(|n| *n < 1_000_000_000).step_by(if ctx.quick() { 7 } else { 1 }));
     numbers.extend(gen::boundaries().into_iter().filter(|n| *n < 1_000_000_000));
-    let n_random = ctx.n(4_000, 200_000);
+    let n_random = ctx.n(40_000, 600_000);
     let numbers = &numbers;
     let rep = run_sharded(ctx, |w, nw, rep| {
         let ls = LangSet::new();
